@@ -378,16 +378,24 @@ func (ps *Points) Collapse() {
 		return
 	}
 
-	pts := make(map[string]Point)
+	// Type and Key must be kept apart in the map key, otherwise
+	// ("ab", "") and ("a", "b") are taken for the same point
+	type typeKey struct {
+		typ string
+		key string
+	}
+
+	pts := make(map[typeKey]Point)
 
 	for _, p := range *ps {
-		pA, OK := pts[p.Type+p.Key]
+		tk := typeKey{p.Type, p.Key}
+		pA, OK := pts[tk]
 		if OK {
 			if pA.Time.Before(p.Time) || pA.Time.Equal(p.Time) {
-				pts[p.Type+p.Key] = p
+				pts[tk] = p
 			}
 		} else {
-			pts[p.Type+p.Key] = p
+			pts[tk] = p
 		}
 	}
 
